@@ -93,7 +93,7 @@ def nontrivial(case):
 
 def check(rep, tier, seed, driver):
     rng = random.Random(seed)
-    n = 350 if tier == "quick" else 3000
+    n = 350 if tier == "quick" else 1500
     rep.rule = ("random elitist archives (GridArchive 1-4 dims, CVTArchive kd-tree/brute/chunked with custom incl. duplicated centroids, "
                 "SlidingBoundariesArchive without remap; float32/float64; 5 extra-field layouts; ndarray/list/float64 containers) x random "
                 "histories of add/add_single/clear, measures drawn mostly from a small pool (collisions), objectives wild floats incl. "
